@@ -39,5 +39,6 @@ Theorem C20_indented_entry_refuted :
                  text = slit "transport=a" ++ ch_nl :: slit " tpm=b" ++ [ch_nl] /\
                  ini_get d key_tpm = None /\ ini_get d key_transport = Some (slit "a" ++ ch_nl :: slit "tpm=b").
 Proof.
-  eexists. eexists. split; [vm_compute; reflexivity|]. vm_compute. repeat split; reflexivity.
+  exists (slit "transport=a" ++ ch_nl :: slit " tpm=b" ++ [ch_nl]), [(slit "transport", slit "a" ++ ch_nl :: slit "tpm=b")].
+  vm_compute. repeat split; reflexivity.
 Qed.
